@@ -1230,16 +1230,16 @@ func TestVerifC16(t *testing.T) {
 
 	// The run must have seen every kind of demand and every kind of outcome.
 	need := map[string]int{
-		"oracle_demands_exact_clientid":               2000,
-		"oracle_demands_failure:invalid-label":        1000,
-		"oracle_demands_failure:strict-outside":       500,
-		"oracle_demands_no_clientid_and_success":      500,
-		"oracle_accepts_several_outcomes":             1000,
-		"observed_clientid_in_cache":                  2000,
-		"observed_servfail_responses":                 2000,
-		"observed_no_clientid":                        2000,
-		"host_header_port_pairs_compared":             200,
-		"doh_url_parsed_from_request_target":          500,
+		"oracle_demands_exact_clientid":          2000,
+		"oracle_demands_failure:invalid-label":   1000,
+		"oracle_demands_failure:strict-outside":  500,
+		"oracle_demands_no_clientid_and_success": 500,
+		"oracle_accepts_several_outcomes":        1000,
+		"observed_clientid_in_cache":             2000,
+		"observed_servfail_responses":            2000,
+		"observed_no_clientid":                   2000,
+		"host_header_port_pairs_compared":        200,
+		"doh_url_parsed_from_request_target":     500,
 	}
 	keys := make([]string, 0, len(need))
 	for k := range need {
